@@ -139,10 +139,12 @@ class Hist(object):
                     chk_dict(r)
                     l.append(r)
             if kind == 'extend':
-                real, model = both(lambda: g.extend(rows), me)
+                # op[2] == 'iter': a one-shot iterable, as list.extend accepts
+                arg = iter(rows) if (len(op) > 2 and op[2] == 'iter') else rows
+                real, model = both(lambda: g.extend(arg), me)
             else:
                 def ri():
-                    r = g.__iadd__(rows)
+                    r = g.__iadd__(iter(rows) if (len(op) > 2 and op[2] == 'iter') else rows)
                     if r is not g:
                         raise AssertionError('+= did not return the grid')
                 real, model = both(ri, me)
@@ -316,7 +318,8 @@ def alphabet(mode):
     ]
     if mode == 'list':
         ops += [['append', 10], ['insert', 0, 10], ['setitem', 0, 10], ['append', 'int'], ['insert', 0, 'none'], ['setitem', 0, 'pairs'], ['extend', [0, 'int']],
-                ['setitem', 7, 0], ['del', 7], ['delslice', [None, None, 2]]]
+                ['setitem', 7, 0], ['del', 7], ['delslice', [None, None, 2]], ['delslice', [None, None, -1]],
+                ['delslice', [2, None, -1]], ['extend', [1, 6], 'iter'], ['iadd', [2], 'iter']]
     else:
         ops += [['append', 5], ['append', 7], ['filter', 'v'], ['setitem', 0, 4], ['extend', []], ['remove', 3],
                 ['slice', [None, None]], ['append', 8], ['setitem', 0, 9]]
@@ -342,6 +345,7 @@ def history_strategy(mode):
     ops = [
         t.map(lambda x: ['append', x]), st.tuples(idx, t).map(lambda p: ['insert', p[0], p[1]]),
         st.lists(t, max_size=3).map(lambda x: ['extend', x]), st.lists(t, max_size=2).map(lambda x: ['iadd', x]),
+        st.lists(t, max_size=3).map(lambda x: ['extend', x, 'iter']), st.lists(t, max_size=2).map(lambda x: ['iadd', x, 'iter']),
         st.tuples(idx, t).map(lambda p: ['setitem', p[0], p[1]]), idx.map(lambda i: ['del', i]),
         sl.map(lambda s: ['delslice', s]), st.just(['pop']), idx.map(lambda i: ['pop', i]),
         t.map(lambda x: ['remove', x]), st.just(['reverse']), st.just(['clear']), sl.map(lambda s: ['slice', s]),
